@@ -17,9 +17,12 @@ ANCHOR = ["alloc 0 0 1 0 8 0 Default 63", "vmroot 255 0", "root 0 63 null"]
 
 
 class Ctx:
-    """what a directive sees: `send(op) -> canonical result | None`, the pairs so far, last known refs, gcs"""
+    """what a directive sees: `send(op) -> canonical result | None` (recorded in the trace, `snap` injected after a
+    pause), `ask(op)` (not recorded: e.g. `events`), `note(op, res)` (a synthetic pair for the monitor, not sent to
+    hx_gc), the pairs so far, last known refs, gcs, the program"""
     def __init__(self, send, pairs, refs):
         self.send, self.pairs, self.refs, self.gcs = send, pairs, refs, 0
+        self.ask = self.note = self.program = self.burst = None
 
 
 def run(program, directives=None, timeout=240, auto_snap=True, pre=()):
@@ -61,6 +64,9 @@ def run(program, directives=None, timeout=240, auto_snap=True, pre=()):
         return res
 
     def send(op):
+        quiet = op.startswith("~")          # `~op`: no snapshot after the pause this op may cause
+        if quiet:
+            op = op[1:]
         t = op.split()
         if t[0] == "ismo" and t[1].startswith("@@"):
             r = refs.get(int(t[1][2:]))
@@ -79,13 +85,65 @@ def run(program, directives=None, timeout=240, auto_snap=True, pre=()):
         if m and int(m.group(1)) != state["gcs"]:
             state["gcs"] = int(m.group(1))
             ctx.gcs = state["gcs"]
-            if t[0] != "snap" and auto_snap:
+            if t[0] != "snap" and auto_snap and not quiet:
                 r2 = raw_send("snap")
                 if r2 is not None:
                     G._note_refs(r2, refs)
         return res
 
+    def burst(ops):
+        """send several ops in ONE write, then read their results: the ops after a pause run without a round trip
+        through the pipe, i.e. while concurrent GC work is still executing. `snap` is injected once at the end."""
+        if state["dead"] or not ops:
+            return []
+        try:
+            p.stdin.write("\n".join(ops) + "\n")
+            p.stdin.flush()
+        except (BrokenPipeError, OSError):
+            pass
+        out, changed = [], False
+        for op in ops:
+            try:
+                line = p.stdout.readline()
+            except OSError:
+                line = ""
+            if not line:
+                state["dead"] = True
+                try:
+                    rc = p.wait(timeout=10)
+                except subprocess.TimeoutExpired:
+                    p.kill(); rc = p.wait()
+                pairs.append((op, f"crash:rc={rc}"))
+                break
+            res = E.canon(line.rstrip("\n"))
+            pairs.append((op, res))
+            out.append(res)
+            t = op.split()
+            if t[0] in ("alloc", "alloco") and res.startswith("a="):
+                refs[int(t[2])] = int(re.search(r"\br=(0x[0-9a-f]+)", res).group(1), 16)
+            m = G._GCS.search(res)
+            if m and int(m.group(1)) != state["gcs"]:
+                state["gcs"] = ctx.gcs = int(m.group(1))
+                changed = True
+            if res.startswith("fatal") or res.startswith("timeout"):
+                state["dead"] = True
+                break
+        if changed and auto_snap and not state["dead"]:
+            r2 = raw_send("snap")
+            if r2 is not None:
+                G._note_refs(r2, refs)
+        return out
+
+    def ask(op):
+        n = len(pairs)
+        res = raw_send(op)
+        if res is not None:
+            del pairs[n:]
+        return res
+
     ctx = Ctx(send, pairs, refs)
+    ctx.ask, ctx.program, ctx.burst = ask, program, burst
+    ctx.note = lambda op, res: pairs.append((op, res))
     try:
         hdr = program.header()
         i = hdr.index("init")
